@@ -171,7 +171,8 @@ pub fn replay(args: &[String]) -> i32 {
         if got[..n.min(exp.len())] != exp[..n.min(exp.len())] || n > exp.len() {
             probs.push("yielded entries differ from the denoted ones".into());
         }
-        if err && !ended_err {
+        let either = c["either"].as_bool().unwrap_or(false);
+        if err && !ended_err && !either {
             probs.push("corruption not reported: iteration ended without an error".into());
         }
         if !err && ended_err {
